@@ -45,7 +45,8 @@ def required_cells(tier):
             "beside-includer-and-on-path", "computed-quote", "computed-angle", "reinclude:guard", "reinclude:once",
             "reinclude:plain", "forced-include", "forced-include-macro-tested", "same-name-from-two-dirs",
             "class:E", "class:R", "resolved-set-compared", "table-compared", "header-dir-outside-root",
-            "outside-header-read", "include-depth>=40", "include-depth>=70", "headers-differing-in-case"]
+            "outside-header-read", "include-depth>=40", "include-depth>=70", "headers-differing-in-case",
+            "guard-undefined-then-reincluded", "directory-named-like-header-on-search-path"]
 
 
 def enum_cases():
@@ -216,6 +217,12 @@ def check_case(ctx, case, base, cls, extra_cells=()):
         cells.add("header-dir-outside-root")
     if any(r.endswith("/CaseP.h") for r in case["files"]):
         cells.add("headers-differing-in-case")
+    if any(r.endswith("/tab.h") for r in case["files"]):
+        cells.add("guard-undefined-then-reincluded")
+    for dd in case.get("dirs", []):
+        # the decoy matters when some translation unit searches its directory before the one that holds the file
+        if any(os.path.dirname(dd) in [x[1] for x in tu["search"]] or os.path.dirname(dd) == os.path.dirname(tu["file"]) for tu in case["tus"]):
+            cells.add("directory-named-like-header-on-search-path")
     for g in per_tu:
         # gcc -H prints one dot per nesting level
         depth = max([lvl for lvl, _ in g["includes"]] or [0])
@@ -303,7 +310,7 @@ def run_shard(ctx):
         # 40%: one header directory lies outside the analysis root (its headers are read for their macros);
         # one case in 16: an include chain 20..100 levels deep (gcc allows 200; the code's recursion meets the interpreter's limit near 120)
         case = forest.gen(rng, outside=rng.random() < 0.4, deep=[20, 40, 70, 100][(i // 16) % 4] if i % 16 == 5 else 0,
-                          casepair=(i % 8 == 3))
+                          casepair=(i % 8 == 3), reguard=(i % 8 == 6), dirdecoy=(i % 4 == 1))
         if ctx.mine(i):
             check_case(ctx, case, base, "R")
     shutil.rmtree(base, ignore_errors=True)
